@@ -97,6 +97,14 @@ func c19cRun(c *ev.Ctx) {
 		return true
 	}
 	toggles, refused, nearCap := 0, 0, false
+	var pair []string
+	if ps := minedCollisions(); len(ps) > 0 && r.Chance(1, 3) {
+		p := ps[r.Intn(len(ps))]
+		pair = []string{p[0], p[1]}
+		if r.Bool() {
+			pair = []string{p[1], p[0]}
+		}
+	}
 	for i := 0; i < nops; i++ {
 		k := r.Weighted([]int{6, 2, 3})
 		switch plan {
@@ -121,6 +129,13 @@ func c19cRun(c *ev.Ctx) {
 		switch k {
 		case 0:
 			name := fmt.Sprintf("n%05d", next)
+			if len(pair) > 0 {
+				// two names with the same hash, one after the other (the index orders and finds
+				// records by hash; whatever it does with equal hashes, it must do the same under
+				// every configuration)
+				name, pair = pair[0], pair[1:]
+				c.Count("C:names_with_equal_hash_inserted", 1)
+			}
 			next++
 			ea, eb := a.InsertRecord(name, uint64(next)), b.InsertRecord(name, uint64(next))
 			hist = append(hist, fmt.Sprintf("insert %s (live %d) default=%v twin=%v", name, len(live), ea, eb))
